@@ -125,7 +125,7 @@ def corpus(tier, seed):
 def run(tier, seed):
     chk = C.Check(PID, tier, seed, level="proof")
     ok, log = C.coq_build()
-    obl = C.prop_obligations(PID, files=["Prop_C01.v", "Prop_C01_types.v", "Prop_C01_texp.v"]) if ok else dict(theorems=[], axioms={}, ok=False, log=log)
+    obl = C.prop_obligations(PID, files=["Prop_C01.v", "Prop_C01_types.v", "Prop_C01_texp.v"] + (["Prop_C01_a2a.v"] if "theories/Prop_C01_a2a.v" in open(os.path.join(C.COQ, "_CoqProject")).read() else [])) if ok else dict(theorems=[], axioms={}, ok=False, log=log)
     if not ok or not obl["ok"]:
         chk.broken("theorems of Prop_C01.v do not check", (log + obl.get("log", ""))[-3000:])
         return chk.finish(obl)
@@ -205,7 +205,30 @@ def run(tier, seed):
             chk.broken("an instance of a proved corollary of Prop_C01_texp.v evaluates to false", xc["corollary_instances"]["failing_inside_guards"][:4])
         if xc["evaluator_vs_shadow"]["DISAGREE_UNEXPLAINED"] > 0:
             chk.broken("the reference evaluator of M_Texp.v and the shadow execution disagree", xc["evaluator_vs_shadow"]["unexplained_programs"][:6])
+    # the normaliser layer (M_A2A.v): model <-> the real ast2ast on every program (exact, structural),
+    # reference evaluator on source and normalised program <-> CPython, instances of the theorems
+    a2a_cov = {}
+    if "theories/Chk_A2A.v" in open(os.path.join(C.COQ, "_CoqProject")).read():
+        from . import c01_a2a
+        ac = c01_a2a.collect(tier, seed)
+        a2a_cov = {k: ac.get(k) for k in ("cases", "distinct", "unmodelled", "distribution", "evaluation", "evaluator_vs_cpython",
+                                           "theorem_guard", "theorem_instances", "guard_coverage", "timings")}
+        for f in (ac.get("impl_failures") or [])[:10]:
+            chk.violation("the normaliser (ast2ast) changes the value of an accepted program", f)
+        for f in (ac.get("open_findings") or [])[:10]:
+            chk.violation("the normaliser (ast2ast) changes the value of an accepted program", f)
+        if ac.get("mismatches") and not (ac.get("impl_failures") or ac.get("open_findings")):
+            chk.broken("normaliser model (M_A2A.v) and qlasskit.ast2ast differ", ac["mismatches"][:8])
+        if ac.get("coq_errors") or ac.get("harness_errors"):
+            chk.broken("the normaliser-layer case files did not evaluate", ((ac.get("coq_errors") or []) + (ac.get("harness_errors") or []))[:4])
+        ti = ac.get("theorem_instances") or {}
+        if isinstance(ti, dict) and (ti.get("fail") or ti.get("FAIL")):
+            chk.broken("an instance of a proved theorem of Prop_C01_a2a.v evaluates to false", ti)
+        ev = ac.get("evaluator_vs_cpython") or {}
+        if isinstance(ev, dict) and (ev.get("disagree") or ev.get("DISAGREE")):
+            chk.broken("the reference evaluator of M_A2A.v and CPython disagree on the source program", ev)
     chk.coverage.update(
+        normaliser_layer=a2a_cov,
         translator_layer=texp_cov,
         programs=len(distinct), evaluations=tot["evaluated"], distinct_nontrivial=len(distinct),
         rule="corpus = suite programs + structural templates + every operator x width pair in {2,3,4}^2 + seeded random boolean and "
